@@ -642,10 +642,10 @@ impl InstrFormat for ModernEclHooks {
         }))
     }
 
-    fn write_instr(&self, f: &mut BinWriter, _: &dyn Emitter, instr: &RawInstr) -> WriteResult {
+    fn write_instr(&self, f: &mut BinWriter, emitter: &dyn Emitter, instr: &RawInstr) -> WriteResult {
         f.write_i32(instr.time)?;
         f.write_u16(instr.opcode)?;
-        f.write_u16(self.instr_size(instr) as _)?;
+        f.write_u16(llir::fit_header_field(emitter, "size", self.instr_size(instr))?)?;
         f.write_u16(instr.param_mask)?;
         f.write_u8(instr.difficulty)?;
         f.write_u8(instr.arg_count)?;
